@@ -61,9 +61,34 @@ func loopVarsOf(fr *frame) []LoopVar {
 			}
 		}
 	}
-	sort.Slice(out, func(i, j int) bool {
+	// other named locals (loop 0): position among the locals of the same type, in order of first appearance
+	seen := map[string]bool{}
+	for _, lv := range out {
+		seen[lv.Name] = true
+	}
+	perType := map[string]int{}
+	for _, b := range fr.fn.Blocks {
+		for _, ins := range b.Instrs {
+			d, ok := ins.(*ssa.DebugRef)
+			if !ok || d.IsAddr || d.Object() == nil {
+				continue
+			}
+			v, isVar := d.Object().(*types.Var)
+			if !isVar || seen[v.Name()] {
+				continue
+			}
+			seen[v.Name()] = true
+			t := typeKey(v.Type())
+			perType[t]++
+			out = append(out, LoopVar{Loop: 0, Index: perType[t], Name: v.Name(), Type: t})
+		}
+	}
+	sort.SliceStable(out, func(i, j int) bool {
 		if out[i].Loop != out[j].Loop {
 			return out[i].Loop < out[j].Loop
+		}
+		if out[i].Loop == 0 && out[i].Type != out[j].Type {
+			return out[i].Type < out[j].Type
 		}
 		return out[i].Index < out[j].Index
 	})
@@ -84,8 +109,71 @@ func (fc *fnCtx) renamed(name string) (string, bool) {
 	for _, r := range reg {
 		known[r.Name] = true
 	}
+	// plain locals: align the registered and the present locals of the same type between the names they share
 	for _, r := range reg {
-		if r.Name != name {
+		if r.Name != name || r.Loop != 0 {
+			continue
+		}
+		var olds, news []string
+		for _, x := range reg {
+			if x.Loop == 0 && x.Type == r.Type {
+				olds = append(olds, x.Name)
+			}
+		}
+		present := map[string]bool{}
+		for _, c := range cur {
+			present[c.Name] = true
+			if c.Loop == 0 && c.Type == r.Type {
+				news = append(news, c.Name)
+			}
+		}
+		// segment of unmatched names around `name` in the old list, and the corresponding segment in the new list
+		pos := -1
+		for i, n := range olds {
+			if n == name {
+				pos = i
+			}
+		}
+		if pos < 0 {
+			continue
+		}
+		lo, hi := pos, pos
+		for lo > 0 && !present[olds[lo-1]] {
+			lo--
+		}
+		for hi+1 < len(olds) && !present[olds[hi+1]] {
+			hi++
+		}
+		before, after := "", ""
+		if lo > 0 {
+			before = olds[lo-1]
+		}
+		if hi+1 < len(olds) {
+			after = olds[hi+1]
+		}
+		start, end := 0, len(news)
+		for i, n := range news {
+			if before != "" && n == before {
+				start = i + 1
+			}
+			if after != "" && n == after {
+				end = i
+			}
+		}
+		var seg []string
+		for i := start; i < end && i < len(news); i++ {
+			if !known[news[i]] {
+				seg = append(seg, news[i])
+			}
+		}
+		if len(seg) == hi-lo+1 {
+			alt := seg[pos-lo]
+			fc.e.warnings[fmt.Sprintf("%s: contract identifier %q resolved to the renamed local %q", fc.key, name, alt)] = true
+			return alt, true
+		}
+	}
+	for _, r := range reg {
+		if r.Name != name || r.Loop == 0 {
 			continue
 		}
 		for _, c := range cur {
